@@ -197,8 +197,18 @@ def numeric_cases(ctx, n_cases, seeds=None, focus=None):
                 psi = C09._dense_to_mps(ops, N, g / np.linalg.norm(g), n)
             except Exception:
                 continue
-        psi.canonize_(to='first', normalize=True)
+        # the initial state as a user may hand it over: canonical and normalised / with a prefactor / not canonical at all
+        prep = rng.choice(['canonical', 'canonical', 'canonical', 'scaled', 'raw'])
+        if prep == 'raw' and mode == 'conserve':
+            psi = (1.0 / float(psi.norm())) * psi           # gauge untouched, the norm sits in psi.factor
+        else:
+            psi.canonize_(to='first', normalize=True)
+            if prep == 'scaled':
+                psi = rng.choice([2.0, 0.5]) * psi
+        desc['prep'] = prep
         v0 = dgen.dvec(psi, ops)
+        nv0 = float(np.linalg.norm(v0))
+        ctx.count('tdvp:prep:' + prep)
         ctx.case(desc, nontrivial=int(mask.sum()) >= 2)
         ctx.count('tdvp:' + mode + ':' + method + ':' + order)
         opts = dict(method=method, order=order, opts_svd={'D_total': 64, 'tol': 1e-13}, precompute=pre, subtract_E=sub, normalize=normalize,
@@ -242,11 +252,12 @@ def numeric_cases(ctx, n_cases, seeds=None, focus=None):
         if mode == 'conserve':
             # real time, time-independent Hermitian generator, 1-site (any bond dimension) or 2-site without truncation
             nrm = np.linalg.norm(v1)
-            e0 = np.real(np.vdot(v0, Hd @ v0)); e1 = np.real(np.vdot(v1, Hd @ v1)) / nrm ** 2
-            if abs(nrm - 1) > 1e-8:
-                ctx.violation('tdvp_ (real time, %s) changed the norm to %r (%s %s N=%d normalize=%s)' % (method, nrm, fam, sym, N, normalize), desc)
+            e0 = np.real(np.vdot(v0, Hd @ v0)) / nv0 ** 2; e1 = np.real(np.vdot(v1, Hd @ v1)) / nrm ** 2
+            want_n = 1.0 if normalize else nv0
+            if abs(nrm - want_n) > 1e-8 * max(1.0, want_n):
+                ctx.violation('tdvp_ (real time, %s) returned norm %r for an initial state of norm %r (%s %s N=%d normalize=%s start=%s)' % (method, nrm, nv0, fam, sym, N, normalize, prep), desc)
             if abs(e1 - e0) > 1e-7 * scaleH:
-                ctx.violation('tdvp_ (real time, %s, %s) changed the energy from %r to %r (%s %s N=%d precompute=%s subtract_E=%s)' % (method, order, e0, e1, fam, sym, N, pre, sub), desc)
+                ctx.violation('tdvp_ (real time, %s, %s) changed the energy from %r to %r (%s %s N=%d precompute=%s subtract_E=%s start=%s)' % (method, order, e0, e1, fam, sym, N, pre, sub, prep), desc)
             continue
         ref = dense_evolve(Hd_of_t, v0, u, t_init, t_init + T, mode != 'timedep')
         if normalize:
